@@ -679,7 +679,12 @@ impl TimeZoneProvider for FsTzdbProvider {
                     EpochNanoseconds::try_from(epoch_nanos.0 - seconds_to_nanoseconds(std.offset))?;
                 let dst_epoch_ns =
                     EpochNanoseconds::try_from(epoch_nanos.0 - seconds_to_nanoseconds(dst.offset))?;
-                vec![std_epoch_ns, dst_epoch_ns]
+                // Possible instants are reported in ascending order.
+                if std_epoch_ns.0 <= dst_epoch_ns.0 {
+                    vec![std_epoch_ns, dst_epoch_ns]
+                } else {
+                    vec![dst_epoch_ns, std_epoch_ns]
+                }
             }
         };
         Ok(result)
